@@ -181,9 +181,24 @@ def build_datasets(case, prep):
       rot = case['key_orders'][j % len(case['key_orders'])] % max(1, len(r))
       keys = list(r)
       raws[j] = {k: r[k] for k in keys[rot:] + keys[:rot]}
-  if prep is None:
-    return raws, [fedjax.ClientDataset(r) for r in raws]
-  return raws, [fedjax.ClientDataset(r, prep) for r in raws]
+  mk = (lambda r: fedjax.ClientDataset(r)) if prep is None else (
+      lambda r: fedjax.ClientDataset(r, prep))
+  if case.get('sliced'):
+    # Every client dataset is a slice ds[a:a+n] of a longer dataset that was in
+    # use before (its length taken): a client's train / held-out part, the
+    # first n examples of a client.  The rows outside the slice are not its.
+    lead, trail = case['sliced'] % 3, 1 + case['sliced'] % 2
+    parents, dss = [], []
+    for r in raws:
+      n = len(r['id'])
+      junk = make_examples(np.arange(900001, 900001 + lead + trail), case['features'])
+      parent = {k: np.concatenate([junk[k][:lead], r[k], junk[k][lead:]]) for k in r}
+      pds = mk(parent)
+      len(pds)
+      parents.append(parent)
+      dss.append(pds[lead:lead + n])
+    return parents, dss
+  return raws, [mk(r) for r in raws]
 
 
 def as_iterable(items, kind):
@@ -751,6 +766,7 @@ def padded_cases(draw, tier, federated):
     case['kind'] = draw(st.sampled_from(ITER_KINDS))
     if draw(st.integers(0, 2)) == 0:
       case['key_orders'] = draw(st.lists(st.integers(0, 3), min_size=2, max_size=4))
+    case['sliced'] = draw(st.sampled_from([0, 0, 0, 1, 2, 3, 4, 5]))
   return case
 
 
@@ -821,6 +837,7 @@ def shuffle_batch_cases(draw, tier):
       'kind': draw(st.sampled_from(ITER_KINDS)),
       'key_orders': (draw(st.lists(st.integers(0, 3), min_size=2, max_size=4))
                      if draw(st.integers(0, 2)) == 0 else None),
+      'sliced': draw(st.sampled_from([0, 0, 0, 1, 2, 3, 4, 5])),
   }
 
 
